@@ -80,7 +80,7 @@ func init() {
 			"phase-one/phase-two results and challenges by generated callers, at generated epoch offsets (periods 0..3 epochs of a 20 s epoch) with malformed variants, " +
 			"interleaved with restaking operations; non-trivial = a history in which a phase-two result was accepted and the statistics of a task with at least one result were checked at the end of its statistical period (accepted challenges are counted separately); " +
 			"distinct = hash of the (kind, outcome) sequence",
-		Gen:        GenOpts{Weights: avsWeights(), HostilePct: 3, ExtremePct: 0, Anchor: true, Tempos: []int{7, 12, 21}, CapBits: 40, ClampBits: 50, Dynamic: avsDynamic},
+		Gen:        GenOpts{Weights: avsWeights(), HostilePct: 3, ExtremePct: 0, Anchor: true, Tempos: []int{7, 12, 21}, CapBits: 40, ClampBits: 40, Dynamic: avsDynamic},
 		MinSteps:   40,
 		MaxSteps:   140,
 		Config:     avsConfig,
